@@ -33,15 +33,17 @@ type c14Step struct {
 }
 
 type c14Scenario struct {
-	Key   c14KeyRef `json:"key"`
-	Op    string    `json:"op"`             // Encrypt | EncryptAny | Decrypt | HomoAdd | HomoMult | Chain | Fresh | KeyGen
-	Args  []string  `json:"args,omitempty"` // decimal arguments in the order of the library's signature
-	Tape  []int     `json:"tape,omitempty"` // first bytes handed to the library's random source
-	Seed  int64     `json:"seed"`           // the rest of the library's randomness
-	Steps []c14Step `json:"steps,omitempty"`
-	Count int       `json:"count,omitempty"` // Fresh: number of encryptions of the same plaintext
-	Bits  int       `json:"bits,omitempty"`  // KeyGen
-	Conc  int       `json:"conc,omitempty"`  // KeyGen
+	Key   c14KeyRef   `json:"key"`
+	Op    string      `json:"op"`             // Encrypt | EncryptAny | Decrypt | HomoAdd | HomoMult | Chain | Fresh | KeyGen | History
+	Args  []string    `json:"args,omitempty"` // decimal arguments in the order of the library's signature
+	Tape  []int       `json:"tape,omitempty"` // first bytes handed to the library's random source
+	Seed  int64       `json:"seed"`           // the rest of the library's randomness
+	Steps []c14Step   `json:"steps,omitempty"`
+	Count int         `json:"count,omitempty"` // Fresh: number of encryptions of the same plaintext
+	Bits  int         `json:"bits,omitempty"`  // KeyGen
+	Conc  int         `json:"conc,omitempty"`  // KeyGen
+	Key2  *c14KeyRef  `json:"key2,omitempty"`  // History: the second key (Key is the first)
+	Hist  []c14HistOp `json:"hist,omitempty"`  // History: the operations, as generated from spec/PaillierHist.tla
 }
 
 type c14Key struct {
@@ -167,6 +169,7 @@ func (c *c14Col) report(key, what string, sc func() c14Scenario) {
 }
 
 func (c *c14Col) violations() int { c.mu.Lock(); defer c.mu.Unlock(); return c.count }
+func (c *c14Col) distinct() int   { c.mu.Lock(); defer c.mu.Unlock(); return len(c.seen) }
 func (c *c14Col) noteDrift(what string) {
 	c.mu.Lock()
 	c.drift[what]++
@@ -223,6 +226,18 @@ type c14Op struct {
 	col  *c14Col
 	sc   func() c14Scenario
 	line c14Line // the trace line of the last call (nil: nothing to log)
+	tag  string  // history replay: "reused-object:<object>:<mode>" once the object was re-populated (part of the violation key)
+	note string  // history replay: the operations so far (appended to the description)
+}
+
+func (o *c14Op) report(key, what string) {
+	if o.tag != "" {
+		key = "C14:" + o.tag + ":" + strings.TrimPrefix(key, "C14:")
+	}
+	if o.note != "" {
+		what += " " + o.note
+	}
+	o.col.report(key, what, o.sc)
 }
 
 // decrypt runs the real Decrypt and judges it; quiet suppresses the trace line (used inside other operations).
@@ -238,20 +253,20 @@ func (o *c14Op) decrypt(c *big.Int) (m *big.Int, ok bool) {
 	switch {
 	case pan != "":
 		bad = true
-		o.col.report("C14:Decrypt:panics:"+cls, fmt.Sprintf("Decrypt(%s) [class %s] panics instead of returning a value or an error: %s", c14S(c), cls, core.Short(pan, 160)), o.sc)
+		o.report("C14:Decrypt:panics:"+cls, fmt.Sprintf("Decrypt(%s) [class %s] panics instead of returning a value or an error: %s", c14S(c), cls, core.Short(pan, 160)))
 	case !expectOK && err == nil:
 		bad = true
 		why := "outside [0,N^2)"
 		if d.inRange(c) {
 			why = "shares a factor with N"
 		}
-		o.col.report("C14:Decrypt:accepts:"+cls, fmt.Sprintf("Decrypt(%s) [class %s: %s] returned %s and no error", c14S(c), cls, why, c14S(m)), o.sc)
+		o.report("C14:Decrypt:accepts:"+cls, fmt.Sprintf("Decrypt(%s) [class %s: %s] returned %s and no error", c14S(c), cls, why, c14S(m)))
 	case expectOK && (err != nil || m == nil):
 		bad = true
-		o.col.report("C14:Decrypt:refuses-valid-ciphertext", fmt.Sprintf("Decrypt(%s), a unit modulo N^2 inside [0,N^2), failed: %v", c14S(c), err), o.sc)
+		o.report("C14:Decrypt:refuses-valid-ciphertext", fmt.Sprintf("Decrypt(%s), a unit modulo N^2 inside [0,N^2), failed: %v", c14S(c), err))
 	case expectOK && m.Cmp(want) != 0:
 		bad = true
-		o.col.report("C14:Decrypt:differs-from-CRT-decryption", fmt.Sprintf("Decrypt(%s) = %s but the independent CRT decryption gives %s", c14S(c), c14S(m), c14S(want)), o.sc)
+		o.report("C14:Decrypt:differs-from-CRT-decryption", fmt.Sprintf("Decrypt(%s) = %s but the independent CRT decryption gives %s", c14S(c), c14S(m), c14S(want)))
 	}
 	ok = pan == "" && err == nil && m != nil
 	if !bad {
@@ -294,30 +309,33 @@ func (o *c14Op) encrypt(rnd io.Reader, m *big.Int, withX bool) (c, x *big.Int, o
 	switch {
 	case pan != "":
 		bad = true
-		o.col.report("C14:"+fn+":panics:"+cls, fmt.Sprintf("%s(m=%s) [class %s] panics: %s", fn, c14S(m), cls, core.Short(pan, 160)), o.sc)
+		o.report("C14:"+fn+":panics:"+cls, fmt.Sprintf("%s(m=%s) [class %s] panics: %s", fn, c14S(m), cls, core.Short(pan, 160)))
 	case !expectOK && err == nil:
 		bad = true
-		o.col.report("C14:"+fn+":accepts-plaintext:"+cls, fmt.Sprintf("%s(m=%s) [class %s, outside [0,N)] returned the ciphertext %s and no error", fn, c14S(m), cls, c14S(c)), o.sc)
+		o.report("C14:"+fn+":accepts-plaintext:"+cls, fmt.Sprintf("%s(m=%s) [class %s, outside [0,N)] returned the ciphertext %s and no error", fn, c14S(m), cls, c14S(c)))
 	case expectOK && !ok:
 		bad = true
-		o.col.report("C14:"+fn+":refuses-plaintext:"+cls, fmt.Sprintf("%s(m=%s) [class %s, inside [0,N)] failed: %v", fn, c14S(m), cls, err), o.sc)
+		o.report("C14:"+fn+":refuses-plaintext:"+cls, fmt.Sprintf("%s(m=%s) [class %s, inside [0,N)] failed: %v", fn, c14S(m), cls, err))
 	case expectOK:
 		switch {
 		case !d.inRange(c):
 			bad = true
-			o.col.report("C14:"+fn+":ciphertext-outside-[0,N^2)", fmt.Sprintf("%s(m=%s) returned %s, not inside [0,N^2)", fn, c14S(m), c14S(c)), o.sc)
+			o.report("C14:"+fn+":ciphertext-outside-[0,N^2)", fmt.Sprintf("%s(m=%s) returned %s, not inside [0,N^2)", fn, c14S(m), c14S(c)))
 		case !d.wellFormed(c):
 			bad = true
-			o.col.report("C14:"+fn+":ciphertext-not-a-unit", fmt.Sprintf("%s(m=%s) returned %s, which shares a factor with N (randomiser %s)", fn, c14S(m), c14S(c), c14S(x)), o.sc)
+			o.report("C14:"+fn+":ciphertext-not-a-unit", fmt.Sprintf("%s(m=%s) returned %s, which shares a factor with N (randomiser %s)", fn, c14S(m), c14S(c), c14S(x)))
 		default:
-			got, dok := o.decrypt(c) // judged on its own as well
-			o.line = nil
-			if !dok || got.Cmp(m) != 0 {
+			if k.sk != nil { // (a history replay that encrypts through a public key object has no private key object at hand)
+				got, dok := o.decrypt(c) // judged on its own as well
+				o.line = nil
+				if !dok || got.Cmp(m) != 0 {
+					bad = true
+					o.report("C14:roundtrip:"+cls, fmt.Sprintf("Decrypt(%s(m)) != m for m=%s [class %s]: ciphertext %s decrypts to %s (ok=%v)", fn, c14S(m), cls, c14S(c), c14S(got), dok))
+				}
+			}
+			if want, _ := d.dec(c); !bad && want.Cmp(m) != 0 {
 				bad = true
-				o.col.report("C14:roundtrip:"+cls, fmt.Sprintf("Decrypt(%s(m)) != m for m=%s [class %s]: ciphertext %s decrypts to %s (ok=%v)", fn, c14S(m), cls, c14S(c), c14S(got), dok), o.sc)
-			} else if want, _ := d.dec(c); want.Cmp(m) != 0 {
-				bad = true
-				o.col.report("C14:"+fn+":CRT-decryption-differs-from-m:"+cls, fmt.Sprintf("%s(m=%s) returned %s, which the independent CRT decryption maps to %s", fn, c14S(m), c14S(c), c14S(want)), o.sc)
+				o.report("C14:"+fn+":CRT-decryption-differs-from-m:"+cls, fmt.Sprintf("%s(m=%s) returned %s, which the independent CRT decryption maps to %s", fn, c14S(m), c14S(c), c14S(want)))
 			}
 		}
 	}
@@ -389,7 +407,7 @@ func (o *c14Op) homo(fn string, a, b *big.Int, decryptToo bool) (r *big.Int, ok 
 	switch {
 	case pan != "":
 		bad = true
-		o.col.report(fmt.Sprintf("C14:%s:panics:%s,%s", fn, clsA, clsB), fmt.Sprintf("%s(%s, %s) [classes %s, %s] panics: %s", fn, c14S(a), c14S(b), clsA, clsB, core.Short(pan, 160)), o.sc)
+		o.report(fmt.Sprintf("C14:%s:panics:%s,%s", fn, clsA, clsB), fmt.Sprintf("%s(%s, %s) [classes %s, %s] panics: %s", fn, c14S(a), c14S(b), clsA, clsB, core.Short(pan, 160)))
 	case !(inA && inB):
 		if err == nil {
 			bad = true
@@ -397,7 +415,7 @@ func (o *c14Op) homo(fn string, a, b *big.Int, decryptToo bool) (r *big.Int, ok 
 			if inA {
 				which, cls = argName(false), clsB
 			}
-			o.col.report(fmt.Sprintf("C14:%s:accepts:%s=%s", fn, which, cls), fmt.Sprintf("%s(%s, %s): the %s [class %s] is outside its domain, yet %s and no error was returned", fn, c14S(a), c14S(b), which, cls, c14S(r)), o.sc)
+			o.report(fmt.Sprintf("C14:%s:accepts:%s=%s", fn, which, cls), fmt.Sprintf("%s(%s, %s): the %s [class %s] is outside its domain, yet %s and no error was returned", fn, c14S(a), c14S(b), which, cls, c14S(r)))
 		}
 	case unitA && unitB:
 		if fn == "HomoAdd" {
@@ -413,23 +431,23 @@ func (o *c14Op) homo(fn string, a, b *big.Int, decryptToo bool) (r *big.Int, ok 
 		switch {
 		case !ok:
 			bad = true
-			o.col.report("C14:"+fn+":refuses-valid-input", fmt.Sprintf("%s(%s, %s) on arguments inside their domains failed: %v", fn, c14S(a), c14S(b), err), o.sc)
+			o.report("C14:"+fn+":refuses-valid-input", fmt.Sprintf("%s(%s, %s) on arguments inside their domains failed: %v", fn, c14S(a), c14S(b), err))
 		case !d.inRange(r):
 			bad = true
-			o.col.report("C14:"+fn+":result-outside-[0,N^2)", fmt.Sprintf("%s(%s, %s) returned %s, not inside [0,N^2)", fn, c14S(a), c14S(b), c14S(r)), o.sc)
+			o.report("C14:"+fn+":result-outside-[0,N^2)", fmt.Sprintf("%s(%s, %s) returned %s, not inside [0,N^2)", fn, c14S(a), c14S(b), c14S(r)))
 		case !d.wellFormed(r):
 			bad = true
-			o.col.report("C14:"+fn+":result-not-a-unit", fmt.Sprintf("%s(%s, %s) returned %s, which shares a factor with N", fn, c14S(a), c14S(b), c14S(r)), o.sc)
+			o.report("C14:"+fn+":result-not-a-unit", fmt.Sprintf("%s(%s, %s) returned %s, which shares a factor with N", fn, c14S(a), c14S(b), c14S(r)))
 		default:
 			if got, _ := d.dec(r); got.Cmp(want) != 0 {
 				bad = true
-				o.col.report("C14:"+fn+":wrong-"+what, fmt.Sprintf("%s(%s, %s) = %s carries %s (independent CRT decryption), the %s modulo N is %s", fn, c14S(a), c14S(b), c14S(r), c14S(got), what, c14S(want)), o.sc)
+				o.report("C14:"+fn+":wrong-"+what, fmt.Sprintf("%s(%s, %s) = %s carries %s (independent CRT decryption), the %s modulo N is %s", fn, c14S(a), c14S(b), c14S(r), c14S(got), what, c14S(want)))
 			} else if decryptToo {
 				got, dok := o.decrypt(r)
 				o.line = nil
 				if !dok || got.Cmp(want) != 0 {
 					bad = true
-					o.col.report("C14:"+fn+":result-does-not-decrypt-to-"+what, fmt.Sprintf("Decrypt(%s(%s, %s)) = %s (ok=%v), the %s modulo N is %s", fn, c14S(a), c14S(b), c14S(got), dok, what, c14S(want)), o.sc)
+					o.report("C14:"+fn+":result-does-not-decrypt-to-"+what, fmt.Sprintf("Decrypt(%s(%s, %s)) = %s (ok=%v), the %s modulo N is %s", fn, c14S(a), c14S(b), c14S(got), dok, what, c14S(want)))
 				}
 			}
 		}
@@ -473,7 +491,7 @@ func (o *c14Op) chain(rnd io.Reader, steps []c14Step) (lines []c14Line, ok bool)
 		for _, s := range steps[:step+1] {
 			ops = append(ops, s.Op)
 		}
-		o.col.report("C14:chain:"+steps[step].Op+":"+what, fmt.Sprintf("chain %s: after step %d (%s %s) the ciphertext %s %s; expected plaintext %s", strings.Join(ops, ","), step, steps[step].Op, steps[step].V, c14S(acc), what, c14S(pt)), o.sc)
+		o.report("C14:chain:"+steps[step].Op+":"+what, fmt.Sprintf("chain %s: after step %d (%s %s) the ciphertext %s %s; expected plaintext %s", strings.Join(ops, ","), step, steps[step].Op, steps[step].V, c14S(acc), what, c14S(pt)))
 	}
 	for i, s := range steps {
 		v, good := new(big.Int).SetString(s.V, 10)
@@ -558,17 +576,17 @@ func (o *c14Op) fresh(rnd io.Reader, m *big.Int, count int) bool {
 		for _, f := range es[:i] {
 			same := e.c.Cmp(f.c) == 0
 			if !k.toy && same {
-				o.col.report("C14:Encrypt:ciphertext-repeats", fmt.Sprintf("two of %d encryptions of m=%s under a %d bit key returned the same ciphertext %s", count, c14S(m), k.d.n.BitLen(), c14S(e.c)), o.sc)
+				o.report("C14:Encrypt:ciphertext-repeats", fmt.Sprintf("two of %d encryptions of m=%s under a %d bit key returned the same ciphertext %s", count, c14S(m), k.d.n.BitLen(), c14S(e.c)))
 				return false
 			}
 			if k.toy && e.x != nil && f.x != nil && same != (e.x.Cmp(f.x) == 0) {
-				o.col.report("C14:Encrypt:ciphertext-not-determined-by-randomiser", fmt.Sprintf("encryptions of m=%s: randomisers %s, %s but ciphertexts %s, %s", c14S(m), c14S(e.x), c14S(f.x), c14S(e.c), c14S(f.c)), o.sc)
+				o.report("C14:Encrypt:ciphertext-not-determined-by-randomiser", fmt.Sprintf("encryptions of m=%s: randomisers %s, %s but ciphertexts %s, %s", c14S(m), c14S(e.x), c14S(f.x), c14S(e.c), c14S(f.c)))
 				return false
 			}
 		}
 	}
 	if count >= 32 && len(distinct) < 2 {
-		o.col.report("C14:Encrypt:ciphertext-repeats", fmt.Sprintf("%d encryptions of m=%s all returned the same ciphertext %s", count, c14S(m), c14S(es[0].c)), o.sc)
+		o.report("C14:Encrypt:ciphertext-repeats", fmt.Sprintf("%d encryptions of m=%s all returned the same ciphertext %s", count, c14S(m), c14S(es[0].c)))
 		return false
 	}
 	return true
@@ -634,6 +652,8 @@ func c14RunScenario(sc c14Scenario, k *c14Key, col *c14Col) (lines []c14Line, er
 	case "Chain":
 		ls, _ := o.chain(rnd, sc.Steps)
 		return ls, nil
+	case "History":
+		return nil, fmt.Errorf("a History scenario is replayed with c14RunHistory")
 	case "Fresh":
 		if err := need(1); err != nil {
 			return nil, err
